@@ -45,6 +45,7 @@ var LayoutTemplates = []string{
 	"(a)¶b·c",
 	"{·a§}¶>f·b",
 	"a·&¶b",
+	"((1·+·2))§(·(a))",
 	"a·<<E\nx\nE\n",
 	"{·a·<<E;·}\nx\nE\n",
 	"a·<<E·&&·b\nx\nE\n",
